@@ -19,9 +19,9 @@ is its child list on raw subtrees.  Code-shaped models: `nodeChild` (port of `ts
 `Quirks`).  `Summarized`/`shapeOK` are C02's predicates (checked on every real tree).
 
 Clause → theorem (index for all Props files of C06: Props, CursorProps, NodeProps, SiblingZw, NavVariants, FlatProps, FieldProps,
-SiblingNamed, SiblingNamedNext, NamedFcb, CursorFcb).  P = proved ∀-theorem over the code-shaped port (every port is tied to the real API
+SiblingNamed, SiblingNamedNext, NamedFcb, CursorFcb, FieldWitness, CursorParent, CursorFcbFlat, FieldNamed, RangeFlat, RangeFlatP).  P = proved ∀-theorem over the code-shaped port (every port is tied to the real API
 by correspondence on every answer); P(h) = proved under decidable hypotheses h that are EVALUATED together with the conclusion on every
-real tree (nodes failing h are counted as outside and coincide with the known findings F1–F10 of notes/C06.md); J = decided by the Lean
+real tree (nodes failing h are counted as outside and coincide with the known findings F1–F11 of notes/C06.md); J = decided by the Lean
 judge against `flatten` on every node of every explored tree, not proved.  All P/P(h) about node.c assume `Summarized` + `shapeOK` of
 C02 (evaluated on every tree by ./check C02).  "Same node" is stated as: same raw subtree and alias (and slot id / position where
 `TSNode`s are compared exactly).
@@ -41,13 +41,14 @@ C02 (evaluated on every tree by ./check C02).  "Same node" is stated as: same ra
 * next / previous NAMED sibling ................ P(h): the same two theorems with `anon = false`, h additionally `anonLeafOK`; the link to
   `FT.next/prevSibling … namedOnly` is evaluated (0 differences), not proved
 * child by field ............................... P(h): `child_by_field_id_spec_partial`, `child_by_field_id_ft_spec`, h = `cbfOK` (+ language
-  premise `fieldMapsSorted`); fails below ERROR nodes = F8.  `child_by_field_name` = id lookup + this: J
-* field name of a child ........................ P(h): `field_name_for_child_spec`, h = `hiddenExtraOK`; `field_name_for_named_child`: J
+  premise `fieldMapsSorted`); fails below ERROR nodes = F8 and for an inherited entry on a VISIBLE child = F11 (`child_by_field_id_full_false`:
+  without `cbfOK` the statement is false).  `child_by_field_name` = id lookup + this: J
+* field name of a child ........................ P(h): `field_name_for_child_spec`, h = `hiddenExtraOK`; `field_name_for_named_child_spec`, h additionally `anonLeafOK`
 * first child for a byte ....................... P(h): `first_child_for_byte_spec_anon` (both flags), `…_flat_spec_anon`, `…_ft_spec_anon`,
   h = `ndeNodeA` (no dead-end descent; fails = F5) and for the named flag `anonLeafOK`
 * smallest descendant for a byte or point range  P for NON-EMPTY ranges, no hypothesis on the tree: `descendant_for_byte_range_spec_anon`,
-  `descendant_for_point_range_spec_partial` (both flags); on `FT`: `descendant_for_byte_range_ft_spec` (bytes, all nodes; named / point links
-  evaluated only).  EMPTY ranges: J (F6).  Receiver other than the root: the theorems hold for every receiver, the `FT` link is for the root
+  `descendant_for_point_range_spec_partial` (both flags); on `FT`: `descendant_for_byte_range_ft_spec`, `named_descendant_for_byte_range_ft_spec`,
+  `descendant_for_point_range_ft_spec` (all four functions).  EMPTY ranges: J (F6).  Receiver other than the root: the theorems hold for every receiver, the `FT` link is for the root
 * child-containing-descendant .................. P(h): `child_with_descendant_spec_partial`, `child_with_descendant_spec_empty` (h as for parent)
 * cursor first / last child .................... P: `cursor_first_child_spec`, `cursor_last_child_spec`; = node API `cursor_node_agree_first`
 * cursor next sibling .......................... P(h): `cursor_next_sibling_spec`, `cursor_next_sibling_index_spec`, `cursor_node_agree_next`,
@@ -55,10 +56,12 @@ C02 (evaluated on every tree by ./check C02).  "Same node" is stated as: same ra
   (`gotoChild_preserves_inv`, `gotoNextSibling_preserves_inv`, `gotoPreviousSibling_preserves_inv`)
 * cursor previous sibling ...................... P(h): `cursor_prev_sibling_spec` for the REPAIRED iterator (F1–F3 fixed in /repo;
   `iterPrev_undoes_iterNext`, `iterPrev_int8_stops`, `int8_witness` document the old defects), h = `CursorInv`, < 2³² children
-* cursor parent ................................ J (+ correspondence); only the ascent inside `goto_descendant` is proved (`ascend_spec`)
+* cursor parent ................................ P: `goto_parent_spec` (every stack), `goto_parent_undoes_child`, `next_sibling_keeps_parent`,
+  `gotoParent_preserves_inv`; = `ts_node_parent`'s `parentOnPath`: P(h) `cursor_parent_is_parentOnPath_inv`, h = `CursorInv` (evaluated on every cursor)
 * goto-descendant .............................. P(h): `goto_descendant_spec`, h = `CursorInv`
-* cursor first-child-for-byte / -point ......... P(h): `cursor_first_child_for_spec` (file CursorFcb.lean), h = no dead end (`ndeCur`; fails = F9)
-* depth ........................................ J (+ correspondence)
+* cursor first-child-for-byte / -point ......... P(h): `cursor_first_child_for_spec` (file CursorFcb.lean), h = no dead end (`ndeCur`; fails = F9);
+  `cfcIdeal_flat`, `cursor_first_child_for_ft_spec`: the plain search = first child of the ordered tree ending after the goal, with its index
+* depth ........................................ P: `depth_spec`, `depth_child`, `depth_parent`; P(h = `StackOK`) `next_sibling_depth`
 * descendant index ............................. P(h): `descendant_index_spec`, h = `CursorInv`
 * field (cursor) ............................... P: `cursor_field_spec`
 * "the node's S-expression is the rendering of that same tree" .. P(h): `sexp_spec`, h = `sexpOK` (fails with a hidden MISSING node = F7)
